@@ -80,42 +80,79 @@ def find_code(text, pat, start=0, end=None):
     return None
 
 
-def locate_fn(text, impl_sel, fn_name):
-    lo, hi = 0, len(text)
-    if impl_sel != "-":
-        m = find_code(text, r"impl\b[^{;]*" + re.escape(impl_sel).replace(r"\ ", r"\s+") + r"[^{;]*\{")
+def impl_blocks(text, impl_sel):
+    """All (open_brace, close_brace) of impl blocks whose header (text between `impl` and `{`,
+    whitespace-normalised, leading generics `<..>` removed) equals the selector."""
+    want = " ".join(impl_sel.split())
+    out = []
+    i = 0
+    while True:
+        m = find_code(text, r"impl\b([^{;]*)\{", i)
         if not m:
+            break
+        hdr = " ".join(m.group(1).split())
+        hdr_nog = re.sub(r"^<[^>]*>\s*", "", hdr)
+        ob = m.end() - 1
+        cb = match_brace(text, ob)
+        if hdr == want or hdr_nog == want:
+            out.append((ob, cb))
+        i = ob + 1
+    return out
+
+
+def locate_fn(text, impl_sel, fn_name):
+    ranges = [(0, len(text))]
+    if impl_sel != "-":
+        ranges = impl_blocks(text, impl_sel)
+        if not ranges:
             raise ExtractError("impl block `%s` not found" % impl_sel)
-        lo = m.end() - 1
-        hi = match_brace(text, lo)
-    m = find_code(text, r"(?:pub(?:\([a-z:]+\))?\s+)?(?:const\s+)?(?:unsafe\s+)?fn\s+" + re.escape(fn_name) + r"\b", lo, hi)
-    if not m:
-        raise ExtractError("fn `%s` not found in `%s`" % (fn_name, impl_sel))
-    start = m.start()
-    ob = find_code(text, r"\{", m.end(), hi)
-    if not ob:
-        raise ExtractError("fn `%s` has no body" % fn_name)
-    cb = match_brace(text, ob.start())
-    return start, ob.start(), cb
+    for lo, hi in ranges:
+        m = find_code(text, r"(?:pub(?:\([a-z:]+\))?\s+)?(?:const\s+)?(?:unsafe\s+)?fn\s+" + re.escape(fn_name) + r"\b", lo, hi)
+        if not m:
+            continue
+        start = m.start()
+        ob = find_code(text, r"\{", m.end(), hi)
+        if not ob:
+            raise ExtractError("fn `%s` has no body" % fn_name)
+        cb = match_brace(text, ob.start())
+        return start, ob.start(), cb
+    raise ExtractError("fn `%s` not found in `%s`" % (fn_name, impl_sel))
 
 
 def strip_comments_and_attrs(code):
+    """Removes comments and every `#[...]` / `#![...]` attribute group (bracket-matched, also inline)."""
     out = []
-    for ln in code.split("\n"):
-        s = ln.strip()
-        if s.startswith("#[") or s.startswith("//"):
+    i = 0
+    n = len(code)
+    while i < n:
+        if code.startswith("//", i):
+            j = code.find("\n", i)
+            i = n if j < 0 else j
             continue
-        # trailing line comments
-        i = 0
-        cut = None
-        while i < len(ln):
-            if ln.startswith("//", i):
-                cut = i
-                break
-            kind, j = _scan(ln, i)
-            i = j
-        out.append(ln if cut is None else ln[:cut].rstrip())
-    return "\n".join(l for l in out if l.strip() != "")
+        if code.startswith("/*", i):
+            j = code.find("*/", i + 2)
+            i = n if j < 0 else j + 2
+            continue
+        if code[i] == "#" and (code.startswith("#[", i) or code.startswith("#![", i)):
+            j = code.index("[", i)
+            depth = 0
+            while j < n:
+                kind, k = _scan(code, j)
+                if kind == "code":
+                    if code[j] == "[":
+                        depth += 1
+                    elif code[j] == "]":
+                        depth -= 1
+                        if depth == 0:
+                            break
+                j = k
+            i = j + 1
+            continue
+        kind, j = _scan(code, i)
+        out.append(code[i:j])
+        i = j
+    text = "".join(out)
+    return "\n".join(l.rstrip() for l in text.split("\n") if l.strip() != "")
 
 
 def splice_fn(rel, impl_sel, fn_name, opts, contract_lines):
@@ -152,7 +189,7 @@ def splice_fn(rel, impl_sel, fn_name, opts, contract_lines):
     return "\n".join(out), dropped
 
 
-def splice_item(rel, prefix):
+def splice_item(rel, prefix, opts=None):
     path = os.path.join(REPO, rel)
     if not os.path.exists(path):
         raise ExtractError("file %s not found" % rel)
@@ -160,16 +197,20 @@ def splice_item(rel, prefix):
     m = find_code(text, re.escape(prefix))
     if not m:
         raise ExtractError("item `%s` not found in %s" % (prefix, rel))
-    semi = find_code(text, r";", m.end())
-    ob = find_code(text, r"\{", m.end())
+    semi = find_code(text, r";", m.start())
+    ob = find_code(text, r"\{", m.start())
     if ob and (not semi or ob.start() < semi.start()):
         end = match_brace(text, ob.start()) + 1
     elif semi:
         end = semi.end()
     else:
         raise ExtractError("item `%s` has no end" % prefix)
-    return "// extracted verbatim from %s\n%s" % (rel, strip_comments_and_attrs(text[m.start():end])), \
-        ["item `%s`: attributes (derives) and comments" % prefix]
+    code = strip_comments_and_attrs(text[m.start():end])
+    d = ["item `%s`: attributes (derives) and comments" % prefix]
+    if opts and opts.get("vis") == "strip":
+        code = re.sub(r"^pub(\([a-z:]+\))?\s+", "", code)
+        d.append("item `%s`: visibility qualifier" % prefix)
+    return "// extracted verbatim from %s\n%s" % (rel, code), d
 
 
 def expand_splices(body):
@@ -193,7 +234,7 @@ def expand_splices(body):
             continue
         if s.startswith("//@ splice-item"):
             toks = shlex.split(s[len("//@ splice-item"):])
-            code, d = splice_item(toks[0], toks[1])
+            code, d = splice_item(toks[0], toks[1], dict(t.split("=", 1) for t in toks[2:] if "=" in t))
             out.append(code)
             dropped += d
             i += 1
